@@ -4,7 +4,7 @@ import re
 import z3
 from .interp import (model, re_model, MODELS, CONST_MODELS, ADT_MODELS, Cell, SInt, Agg, Ref, VecV, SliceRef, StrV,
                      Closure, FnItem, Opaque, UNIT, Native, Panic, Unsupported, PyFn, some, none, ok, err, tup, scal,
-                     clone, deep_clone, BoxUninit, wrap, rng, is_bool, b_and, b_or, b_not, i_ite, zt, zb, type_head, callee_key)
+                     clone, deep_clone, BoxUninit, wrap, rng, is_bool, b_and, b_or, b_not, i_ite, zt, zb, type_head, callee_key, sym_mul)
 from .mir import INT_TYS, strip_generics, split_top
 
 
@@ -2388,3 +2388,338 @@ def _cow_into_owned(it, key, raw, args):
     if isinstance(inner, SliceRef):
         return VecV([Cell(deep_clone(x.v)) for x in inner.cells()])
     return deep_clone(deref(inner))
+
+
+# ================================================================= further std models (robustness against refactors of the code under test)
+@model('<* as Iterator>::reduce')
+def _reduce(it, key, raw, args):
+    c = args[0].cell if isinstance(args[0], Ref) else Cell(args[0])
+    acc = inext(it, c)
+    if acc is None:
+        return none()
+    while True:
+        x = inext(it, c)
+        if x is None:
+            return some(acc)
+        acc = it.call_value(args[1], [acc, x])
+
+
+class SkipWhileIter(Adaptor):
+    started = False
+
+    def next(self, it):
+        while True:
+            x = inext(it, self.inner)
+            if x is None:
+                return None
+            if self.started:
+                return x
+            if not it.branch(it.call_value(self.extra[0], [Ref(Cell(x))])):
+                self.started = True
+                return x
+
+
+@model('<* as Iterator>::skip_while')
+def _skip_while(it, key, raw, args):
+    return SkipWhileIter(args[0], args[1])
+
+
+class InspectIter(Adaptor):
+    def next(self, it):
+        x = inext(it, self.inner)
+        if x is not None:
+            it.call_value(self.extra[0], [Ref(Cell(x))])
+        return x
+
+
+@model('<* as Iterator>::inspect')
+def _inspect(it, key, raw, args):
+    return InspectIter(args[0], args[1])
+
+
+class StepByIter(Adaptor):
+    first = True
+
+    def next(self, it):
+        n = self.extra[0]
+        if self.first:
+            self.first = False
+            return inext(it, self.inner)
+        for _ in range(n - 1):
+            if inext(it, self.inner) is None:
+                return None
+        return inext(it, self.inner)
+
+
+@model('<* as Iterator>::step_by')
+def _step_by(it, key, raw, args):
+    n = args[1].t
+    if not isinstance(n, int):
+        raise Unsupported('step_by with a symbolic step')
+    if n == 0:
+        raise Panic('assertion failed: step != 0')
+    return StepByIter(args[0], n)
+
+
+@model('<* as Iterator>::partition')
+def _partition(it, key, raw, args):
+    a, b = VecV(), VecV()
+    for x in drain(it, args[0]):
+        (a if it.branch(it.call_value(args[1], [Ref(Cell(x))])) else b).cells.append(Cell(x))
+    return tup(a, b)
+
+
+@model('<* as Iterator>::unzip')
+def _unzip(it, key, raw, args):
+    a, b = VecV(), VecV()
+    for x in drain(it, args[0]):
+        a.cells.append(Cell(x.fields[0].v))
+        b.cells.append(Cell(x.fields[1].v))
+    return tup(a, b)
+
+
+@model('<* as Iterator>::rposition')
+def _rposition(it, key, raw, args):
+    xs = drain(it, args[0])
+    for i in range(len(xs) - 1, -1, -1):
+        if it.branch(it.call_value(args[1], [xs[i]])):
+            return some(SInt(i, 'usize'))
+    return none()
+
+
+@model('impl#[T]::windows')
+def _windows(it, key, raw, args):
+    sl = as_slice(args[0])
+    n = args[1].t
+    if not isinstance(n, int):
+        raise Unsupported('windows with a symbolic size')
+    if n == 0:
+        raise Panic('window size must be non-zero')
+    return ListIter([SliceRef(sl.vec, sl.lo + i, sl.lo + i + n) for i in range(0, len(sl) - n + 1)])
+
+
+@model('impl#[T]::chunks', 'impl#[T]::chunks_exact')
+def _chunks(it, key, raw, args):
+    sl = as_slice(args[0])
+    n = args[1].t
+    if not isinstance(n, int):
+        raise Unsupported('chunks with a symbolic size')
+    if n == 0:
+        raise Panic('chunk size must be non-zero')
+    exact = key is not None and 'exact' in str(raw)
+    out = []
+    i = 0
+    while i < len(sl):
+        j = min(i + n, len(sl))
+        if exact and j - i < n:
+            break
+        out.append(SliceRef(sl.vec, sl.lo + i, sl.lo + j))
+        i = j
+    return ListIter(out)
+
+
+@model('impl#[T]::split_first')
+def _split_first(it, key, raw, args):
+    sl = as_slice(args[0])
+    if len(sl) == 0:
+        return none()
+    return some(tup(Ref(sl.vec.cells[sl.lo]), SliceRef(sl.vec, sl.lo + 1, sl.hi)))
+
+
+@model('impl#[T]::split_last')
+def _split_last(it, key, raw, args):
+    sl = as_slice(args[0])
+    if len(sl) == 0:
+        return none()
+    return some(tup(Ref(sl.vec.cells[sl.hi - 1]), SliceRef(sl.vec, sl.lo, sl.hi - 1)))
+
+
+@model('impl#[T]::starts_with')
+def _starts_with(it, key, raw, args):
+    a, b = as_slice(args[0]), as_slice(args[1])
+    if len(b) > len(a):
+        return False
+    for x, y in zip(a.cells(), b.cells()):
+        if not it.branch(values_eq(it, x.v, y.v)):
+            return False
+    return True
+
+
+@model('impl#[T]::ends_with')
+def _ends_with(it, key, raw, args):
+    a, b = as_slice(args[0]), as_slice(args[1])
+    if len(b) > len(a):
+        return False
+    for x, y in zip(a.cells()[len(a) - len(b):], b.cells()):
+        if not it.branch(values_eq(it, x.v, y.v)):
+            return False
+    return True
+
+
+@model('impl#[T]::fill')
+def _slice_fill(it, key, raw, args):
+    for c in as_slice(args[0]).cells():
+        c.v = deep_clone(args[1])
+    return UNIT
+
+
+@model('Vec::dedup_by_key')
+def _vec_dedup_by_key(it, key, raw, args):
+    v = deref(args[0])
+    out, keys = [], []
+    for c in v.cells:
+        k = it.call_value(args[1], [Ref(c)])
+        if out and it.branch(values_eq(it, keys[-1], k)):
+            continue
+        out.append(c)
+        keys.append(k)
+    v.cells[:] = out
+    return UNIT
+
+
+@model('Vec::reserve', 'Vec::reserve_exact', 'Vec::shrink_to_fit')
+def _vec_reserve(it, key, raw, args):
+    return UNIT
+
+
+@model('Option::is_some_and')
+def _opt_is_some_and(it, key, raw, args):
+    o = args[0]
+    return o.variant == 1 and bool(it.branch(it.call_value(args[1], [o.fields[0].v])))
+
+
+@model('Option::is_none_or')
+def _opt_is_none_or(it, key, raw, args):
+    o = args[0]
+    return o.variant == 0 or bool(it.branch(it.call_value(args[1], [o.fields[0].v])))
+
+
+@model('Option::flatten')
+def _opt_flatten(it, key, raw, args):
+    o = args[0]
+    return o.fields[0].v if o.variant == 1 else none()
+
+
+@model('Option::xor')
+def _opt_xor(it, key, raw, args):
+    a, b = args
+    if a.variant == 1 and b.variant == 0:
+        return a
+    if a.variant == 0 and b.variant == 1:
+        return b
+    return none()
+
+
+@model('Result::or_else')
+def _res_or_else(it, key, raw, args):
+    r = args[0]
+    return r if r.variant == 0 else it.call_value(args[1], [r.fields[0].v])
+
+
+@model('Result::is_ok_and')
+def _res_is_ok_and(it, key, raw, args):
+    r = args[0]
+    return r.variant == 0 and bool(it.branch(it.call_value(args[1], [r.fields[0].v])))
+
+
+@model('Result::is_err_and')
+def _res_is_err_and(it, key, raw, args):
+    r = args[0]
+    return r.variant == 1 and bool(it.branch(it.call_value(args[1], [r.fields[0].v])))
+
+
+@int_method('clamp')
+def _int_clamp(it, key, raw, args):
+    x, lo, hi = args
+    if all(isinstance(v.t, int) for v in args):
+        if lo.t > hi.t:
+            raise Panic('assertion failed: min <= max')
+        return SInt(max(lo.t, min(hi.t, x.t)), x.ty)
+    if it.branch(zt(lo.t) > zt(hi.t)):
+        raise Panic('assertion failed: min <= max')
+    return SInt(z3.If(zt(x.t) < zt(lo.t), zt(lo.t), z3.If(zt(x.t) > zt(hi.t), zt(hi.t), zt(x.t))), x.ty)
+
+
+@int_method('abs')
+def _int_abs(it, key, raw, args):
+    x = args[0]
+    lo, hi = rng(x.ty)
+    if isinstance(x.t, int):
+        if x.t == lo and lo < 0:
+            raise Panic('attempt to negate with overflow')
+        return SInt(abs(x.t), x.ty)
+    if lo < 0 and it.branch(zt(x.t) == lo):
+        raise Panic('attempt to negate with overflow')
+    return SInt(z3.If(zt(x.t) < 0, -zt(x.t), zt(x.t)), x.ty)
+
+
+@int_method('signum')
+def _int_signum(it, key, raw, args):
+    x = args[0]
+    if isinstance(x.t, int):
+        return SInt((x.t > 0) - (x.t < 0), x.ty)
+    return SInt(z3.If(zt(x.t) > 0, 1, z3.If(zt(x.t) < 0, -1, 0)), x.ty)
+
+
+@int_method('checked_rem')
+def _checked_rem(it, key, raw, args):
+    a, b = args
+    if it.branch(zt(b.t) == 0 if not isinstance(b.t, int) else b.t == 0):
+        return none()
+    if isinstance(a.t, int) and isinstance(b.t, int):
+        r = abs(a.t) % abs(b.t)
+        return some(SInt(-r if a.t < 0 else r, a.ty))
+    lo, _ = rng(a.ty)
+    if lo < 0:
+        raise Unsupported('checked_rem of symbolic signed integers')
+    return some(SInt(zt(a.t) % zt(b.t), a.ty))
+
+
+@int_method('rem_euclid')
+def _rem_euclid(it, key, raw, args):
+    a, b = args
+    if it.branch(zt(b.t) == 0 if not isinstance(b.t, int) else b.t == 0):
+        raise Panic('attempt to calculate the remainder with a divisor of zero')
+    if isinstance(a.t, int) and isinstance(b.t, int):
+        return SInt(a.t % abs(b.t), a.ty)
+    lo, _ = rng(a.ty)
+    if lo < 0:
+        raise Unsupported('rem_euclid of symbolic signed integers')
+    return SInt(zt(a.t) % zt(b.t), a.ty)
+
+
+@int_method('next_multiple_of')
+def _next_multiple_of(it, key, raw, args):
+    a, b = args
+    if it.branch(zt(b.t) == 0 if not isinstance(b.t, int) else b.t == 0):
+        raise Panic('attempt to calculate the remainder with a divisor of zero')
+    lo, hi = rng(a.ty)
+    if isinstance(a.t, int) and isinstance(b.t, int):
+        r = ((a.t + b.t - 1) // b.t) * b.t
+    else:
+        q = (zt(a.t) + zt(b.t) - 1) / zt(b.t)
+        r = sym_mul(q, zt(b.t)) if not isinstance(b.t, int) else q * b.t
+    if it.branch(zt(r) > hi if not isinstance(r, int) else r > hi):
+        raise Panic('attempt to multiply with overflow')
+    return SInt(r, a.ty)
+
+
+def _bitcount(name, f):
+    def g(it, key, raw, args):
+        x = args[0]
+        if not isinstance(x.t, int):
+            s = z3.simplify(zt(x.t))
+            if not z3.is_int_value(s):
+                raise Unsupported('%s of a symbolic integer' % name)
+            v = s.as_long()
+        else:
+            v = x.t
+        w = INT_TYS[x.ty]
+        return SInt(f(v & ((1 << w) - 1), w), 'u32')
+    int_method(name)(g)
+
+
+_bitcount('leading_zeros', lambda v, w: w - v.bit_length())
+_bitcount('trailing_zeros', lambda v, w: w if v == 0 else (v & -v).bit_length() - 1)
+_bitcount('count_ones', lambda v, w: bin(v).count('1'))
+_bitcount('count_zeros', lambda v, w: w - bin(v).count('1'))
